@@ -92,6 +92,13 @@ def execute(case):
         wc["stdout_stream"] = {"stream": out}
     if case.get("stderr", True):
         wc["stderr_stream"] = {"stream": err}
+    if case.get("close_other"):
+        # "log one channel, discard the other": the channel that is not
+        # captured is pointed at /dev/null in the child
+        if "stderr_stream" not in wc:
+            wc["close_child_stderr"] = True
+        if "stdout_stream" not in wc:
+            wc["close_child_stdout"] = True
     watchers = [wc]
     if case.get("second"):
         # a second capturing watcher: descriptors freed by one are reused
@@ -117,9 +124,34 @@ def execute(case):
     closed = set()
     seq = [0]
     writers = set()
+    # what circus does in the child between fork and exec is run in a real
+    # forked child (vfw/kernel.py): the capture pipes must still be the
+    # child's descriptors 1 / 2 afterwards
+    k.preexec_probe = dict
+    std_checked = [0]
+
+    def check_child_std():
+        for rec in k.spawn_log[std_checked[0]:]:
+            std = rec.get("child_std")
+            if rec.get("failed") or not isinstance(std, dict):
+                continue
+            for fd, chan in (("1", "stdout"), ("2", "stderr")):
+                if rec.get(chan + "_pipe") and std.get(fd) != 'pipe':
+                    viols.append(Violation(
+                        'C17:capture-pipe-replaced-before-exec:%s' % chan,
+                        'worker of %s: %s is captured, but after the '
+                        'pre-exec step the child\'s descriptor %s is %r, '
+                        'not the capture pipe: nothing it writes can reach '
+                        'the stream' % (rec["owner"], chan, fd,
+                                        std.get(fd))))
+        std_checked[0] = len(k.spawn_log)
     try:
         fds0 = len(os.listdir('/proc/self/fd'))
         h.start()
+        check_child_std()
+        # (the pre-exec step depends on the configuration only: the first
+        # generation of every watcher is enough, forking is slow)
+        k.preexec_probe = None
 
         def unread(pid, ch):
             got = sum(len(d) for (p, n, d) in
@@ -259,6 +291,7 @@ def execute(case):
                     % (op,)))
                 break
             compare(False)
+            check_child_std()
         if not viols and not w.dead:
             w.run_idle()
             mark_drained()
@@ -360,7 +393,8 @@ def _strategy():
         "stderr": st.sampled_from([True, True, False]),
         "stdout": st.sampled_from([True, True, True, False]),
         "ops": st.lists(op, min_size=1, max_size=40),
-        "generations": st.sampled_from([0, 0, 0, 6, 25])})
+        "generations": st.sampled_from([0, 0, 0, 6, 25])},
+        optional={"close_other": st.booleans()})
 
 
 def plan(tier, seed):
